@@ -251,12 +251,13 @@ _DASH = _SExp.Atom(_z3.StringVal("-"))
 _sub = _srest(_SExp.items(_tok))
 _sub_has = _z3.Or(ol_has(_sub, _s, _slen(_sub)), ol_pend(_sub, _s, _slen(_sub)))
 _sub_type = _z3.If(ol_pend(_sub, _s, _slen(_sub)), _z3.StringVal("object"), ol_type(_sub, _s, _slen(_sub)))
-_z3.RecAddDefinition(ol_mark, [_l, _i], _z3.If(_i <= 0, False, _z3.If(ol_mark(_l, _i - 1), False, _tok == _DASH)))
-_z3.RecAddDefinition(ol_pend, [_l, _s, _i], _z3.If(_i <= 0, False, _z3.If(ol_mark(_l, _i - 1), False,
+from pyvc.sorts import rec_define
+rec_define(ol_mark, [_l, _i], _z3.If(_i <= 0, False, _z3.If(ol_mark(_l, _i - 1), False, _tok == _DASH)))
+rec_define(ol_pend, [_l, _s, _i], _z3.If(_i <= 0, False, _z3.If(ol_mark(_l, _i - 1), False,
                      _z3.If(_z3.Or(_SExp.is_Lst(_tok), _tok == _DASH), ol_pend(_l, _s, _i - 1), _z3.Or(ol_pend(_l, _s, _i - 1), _tok == _SExp.Atom(_s))))))
-_z3.RecAddDefinition(ol_has, [_l, _s, _i], _z3.If(_i <= 0, False, _z3.If(ol_mark(_l, _i - 1), _z3.Or(ol_has(_l, _s, _i - 1), ol_pend(_l, _s, _i - 1)),
+rec_define(ol_has, [_l, _s, _i], _z3.If(_i <= 0, False, _z3.If(ol_mark(_l, _i - 1), _z3.Or(ol_has(_l, _s, _i - 1), ol_pend(_l, _s, _i - 1)),
                      _z3.If(_SExp.is_Lst(_tok), _z3.Or(ol_has(_l, _s, _i - 1), _sub_has), ol_has(_l, _s, _i - 1)))))
-_z3.RecAddDefinition(ol_type, [_l, _s, _i], _z3.If(_i <= 0, _z3.StringVal(""),
+rec_define(ol_type, [_l, _s, _i], _z3.If(_i <= 0, _z3.StringVal(""),
                      _z3.If(_z3.And(ol_mark(_l, _i - 1), ol_pend(_l, _s, _i - 1)), _SExp.s(_tok),
                             _z3.If(_z3.And(_z3.Not(ol_mark(_l, _i - 1)), _SExp.is_Lst(_tok), _sub_has), _sub_type, ol_type(_l, _s, _i - 1)))))
 _osize = _z3.Function("ol_size", _SList, _I)
